@@ -42,11 +42,13 @@ NOT_MODELLED = [
     "faces/hdr_faces/orig_faces (non-Vitamin), brushes+brushsides, nodes, leafs+leaffaces+leafbrushes+mindist, texinfo+texdata+texture names, "
     "primitives+primindices+primverts, overlays+fades+levels, surfedges+edges: modelled as coded over object numbers with the writers' "
     "find_or_insert/find_or_extend closures (Model/C11Lumps.lean), round-trip theorems C11_faces/_brushes/_nodes/_leafs/_texinfo/_primitives/"
-    "_overlays/_surfedges; every run byte-compares what each of these writers produced (main and side lumps, tables afterwards) with the model",
+    "_overlays/_surfedges/_bmodels/_water/_vfaces/_detail_props/_prop_leafs; every run byte-compares what each of these writers produced (main and side lumps, tables afterwards) with the model",
     "planes, vertexes, cubemaps, leafmindisttowater, overlay fades/levels, texture name table, texdata table, visibility lump, static-prop lump: "
     "byte-compared with the model encoders on every explored world (record-level theorems listed in docs/notes/C11.md)",
-    "NOT modelled (round trip on the implementation only): brush models + physcollide stream, water leaf info, detail props (except the name "
-    "dictionary), the leaf-index array of static props, VitaminSource faces, the byte layer of overlays (pad bytes vs zero face slots)",
+    "brush models + PHYSCOLLIDE stream, water leaf info, detail props (records, sprite table, model dictionary), static-prop model / leaf-index "
+    "arrays, VitaminSource faces and the overlay byte layer are modelled as well (C11_bmodels, C11_water, C11_detail_props, C11_prop_leafs, "
+    "C11_vfaces, C11_overlay_bytes) and byte-compared per writer; NOT modelled: the text of the physics keyvalues (opaque bytes: C01), the "
+    "framing of the two game lumps beyond counts (composed in the driver), Output number formatting / parsing (vmf.py)",
     "pakfile lump (zipfile), LZMA-compressed lumps, lump header table and game-lump directory: property C10",
     "Cython-free: bsp.py has no Cython twin",
 ]
@@ -78,7 +80,7 @@ LEVEL_TEXT = ("Lean theorems for all inputs: struct pack/unpack round trip and r
               "round-trip theorems; each writer's bytes and tables are compared with the model on every generated world, and all 20 views are "
               "saved, re-read and compared for all layouts and prop versions.")
 LEVEL_NOTE = ("Trusted: Lean kernel + propext/Classical.choice/Quot.sound; tools/gen_bspfmt.py; harness generators/dumps. Not modelled: "
-              "brush models + physcollide, water leaf info, detail props, Vitamin faces (round trip on the implementation only), "
+              "physics keyvalues text (C01), vmf.py number formatting, "
               "CPython float32 rounding, zip/LZMA.")
 TECHNIQUE = "Lean 4 proofs (induction over formats, byte lists, call sequences) + translator-generated decide obligations + differential correspondence and round-trip search on synthesised BSPs"
 DESIGN_REF = "DESIGN.md section 6, C11"
